@@ -7,7 +7,7 @@ from __future__ import annotations
 
 import random
 
-from edgegraph.structure import Vertex
+from edgegraph.structure import TwoEndedLink, Vertex
 from edgegraph.traversal import breadthfirst, depthfirst, helpers
 
 from egverif import graphs, oracles, zoo
@@ -54,7 +54,7 @@ def apply_mutations(g, muts):
                 g.uni.add_vertex(in_v)
         elif m[0] == "repoint" and m[1] < len(g.edges):
             e = g.edges[m[1]]
-            if len(e.vertices) == 2:
+            if len(e.vertices) == 2 and isinstance(e, TwoEndedLink):
                 e.v2 = g.verts[m[2]]
         elif m[0] == "relink":
             # remove a link and create an equal one: the number of links stays the same
@@ -366,7 +366,7 @@ def case_stream(ctx, rng: random.Random, n_random, nmax, mmax, exhaustive_n=3, b
     for n in range(n_random):
         r = rng.random()
         if r < 0.5:
-            spec = graphs.rand_spec(rng, nmax=nmax, mmax=mmax)
+            spec = graphs.rand_spec(rng, nmax=nmax, mmax=mmax, ecls=graphs.ECLS_X, vcls=graphs.VCLS_X)
         elif r < 0.8:
             spec = graphs.rand_spec(rng, nmax=nmax, mmax=mmax, ecls=graphs.ECLS_DU, vcls=graphs.VCLS_PLAIN)
         else:
